@@ -46,6 +46,8 @@ def gen_loop_program(rr):
     prog['platform_bp'] = rr.random() < 0.3
     # the producer of the loop's input may be replicated (the first body component then aggregates its replicas)
     prog['want_repl_input'] = rr.random() < 0.2
+    # a command line may use one reference several times (files under the producer's directory)
+    prog['dup_ref'] = rr.random() < 0.25
     # the condition component may read the loop-carried binding too (next to its same-iteration input)
     prog['stop_reads_binding'] = rr.random() < 0.3
     if prog['nodeps'] and rr.random() < 0.4:
@@ -74,7 +76,8 @@ def add_second_loop(rr, prog):
         second['import_stage'] = prog['import_stage'] + span_of(prog) + rr.choice([1, 1, 2])
     if not second['suffix'] and rr.random() < 0.4:
         # the same document imported twice
-        for key in ('template', 'method', 'repl', 'const_binding', 'nodeps', 'carried_from', 'stop_reads_binding', 'free_name'):
+        for key in ('template', 'method', 'repl', 'const_binding', 'nodeps', 'carried_from', 'stop_reads_binding', 'free_name',
+                    'dup_ref'):
             second[key] = prog.get(key)
         second['file'] = 'dowhile.yaml'
         targets = {'chain': ['work', 'stop'], 'mid': ['work', 'mid', 'stop'], 'replicated': ['agg', 'stop'],
@@ -154,6 +157,8 @@ def render_dw(prog):
         for (p, is_b) in refs:
             rs.append('%s:%s' % (p, m if (is_b and p == 'val') else 'ref'))
         args = ' '.join(rs) if rs else 'hello'
+        if rs and prog.get('dup_ref') and m == 'ref':
+            args = ' '.join('%s/a.txt %s/b.txt' % (r, r) if r.endswith(':ref') else r for r in rs)
         lines.append('  command: {executable: echo, arguments: "%s %%(loopIteration)s", expandArguments: none}' % args)
         if rs:
             lines.append('  references: [%s]' % ', '.join('"%s"' % r for r in rs))
@@ -356,9 +361,9 @@ def observe_loop(exp, prog):
         st, name = n.split('.', 1)
         try:
             c = conc.get_component_configuration((int(st[5:]), name), raw=True)
-            toks = [t for t in str(c['command'].get('arguments', '')).split() if t.rsplit(':', 1)[-1] in
-                    ('ref', 'output', 'copy', 'link', 'loopref', 'loopoutput')]
-            ARGS[n] = (sorted(toks), sorted(c.get('references') or []))
+            import re as _re
+            toks = _re.findall(r'[^\s"]+?:(?:ref|output|copy|link|loopref|loopoutput)\b', str(c['command'].get('arguments', '')))
+            ARGS[n] = (sorted(set(toks)), sorted(set(c.get('references') or [])))
         except Exception as e:
             ARGS[n] = ('ERR:%s' % type(e).__name__, None)
     resolved = {}
@@ -607,7 +612,18 @@ def run_loop_history(prog, root, viol, cnt, fixpoint_cycles=1):
             yaml.safe_dump({'global': {'uv': 'from-user'}}, f)
         vfiles = [vp]
     plat = 'px' if prog.get('platform_bp') else None
-    exp = new_instance(prog, root, variable_files=vfiles, platform=plat)
+    try:
+        exp = new_instance(prog, root, variable_files=vfiles, platform=plat)
+    except Exception as e:
+        import experiment.model.errors as E
+        if isinstance(e, (E.ExperimentInvalidConfigurationError, E.UndeclaredDataReferenceError, E.DataReferenceFilesDoNotExistError,
+                          E.FlowIRConfigurationErrors)) or type(e).__name__.endswith('Error'):
+            # every generated package is legal: the same components outside a DoWhile document load
+            viol.append({'property': 'C05', 'sig': 'instances:package-with-this-document-does-not-load',
+                         'detail': {'error': repr(e)[:700], 'dup_ref': bool(prog.get('dup_ref')),
+                                    'template': prog.get('template')}})
+            return ['create failed']
+        raise
     path = exp.instanceDirectory.location
     prepare_iteration_dirs(exp, [n for n in exp.graph.nodes], iteration_of)
     loops = loops_of(prog)
